@@ -288,13 +288,33 @@ func (e *Eng) boundVal(t types.Type, hint string) (Val, []string) {
 func calleeOf(cc *ssa.CallCommon) ssa.Value { return cc.Value }
 
 func (e *Eng) doCall(fr *Frame, st *State, instr ssa.Instruction, cc *ssa.CallCommon, mode string) {
+	// `callsite X#n (vars) require expr`: an assertion about the state in which the call is made
+	if !fr.pure && e.fc != nil && len(e.fc.Sites) > 0 && fr.fn == e.fn {
+		name := calleeName(cc)
+		for _, ss := range e.fc.Sites {
+			if ss.Kind != "require" || !calleeMatches(name, ss.Callee) || e.siteOrdinal(instr, cc, ss.Callee) != ss.N {
+				continue
+			}
+			if e.siteHit == nil {
+				e.siteHit = map[*SiteSpec]bool{}
+			}
+			e.siteHit[ss] = true
+			vars := map[string]Val{}
+			for _, vd := range ss.Vars {
+				vars[vd.Name] = e.localAt(fr, st, instr, vd.Name)
+			}
+			t := e.evalClause(ss.Clause, st, e.entry, nil, vars)
+			e.oblige(st, "assert", ss.Clause.Label, propsOf(ss.Clause, e), t, instr, "assertion before call "+ss.Callee+": "+ss.Clause.Expr)
+			e.assume(st, t)
+		}
+	}
 	e.doCallInner(fr, st, instr, cc, mode)
 	if fr.pure || e.fc == nil || len(e.fc.Sites) == 0 || fr.fn != e.fn {
 		return
 	}
 	name := calleeName(cc)
 	for _, ss := range e.fc.Sites {
-		if !calleeMatches(name, ss.Callee) {
+		if ss.Kind == "require" || !calleeMatches(name, ss.Callee) {
 			continue
 		}
 		if e.siteOrdinal(instr, cc, ss.Callee) != ss.N {
